@@ -152,6 +152,7 @@ const (
 	fCommitmentAltered
 	fVectorShortened
 	fVectorExtended
+	fVectorEmpty
 	fDuplicate
 	nFaultKinds
 )
@@ -284,6 +285,9 @@ func (r *router) SendContribution(ctx context.Context, recipient *core.Endpoint,
 			}
 		case fVectorExtended:
 			secret, vVec = consistentContribution(recipient.ID, len(vVec)+1)
+		case fVectorEmpty:
+			// no commitments at all (the share is left as it is)
+			vVec = []bls.PublicKey{}
 		case fDuplicate:
 			_, _, _ = n.proc.OnContribute(ctx, r.from, account, secret, vVec)
 		}
@@ -337,6 +341,8 @@ func (r *router) SendContribution(ctx context.Context, recipient *core.Endpoint,
 			}
 		case fVectorExtended:
 			back, backVec = consistentContribution(r.from, len(backVec)+1)
+		case fVectorEmpty:
+			backVec = []bls.PublicKey{}
 		default:
 			r.c.hit = false
 		}
